@@ -629,7 +629,7 @@ fn main() {
         let mut values_equal = 0u64;
         for i in 0..nfrag {
             let mut r = Rng::for_case(opts.seed ^ 0xF1A6, i);
-            let mut g = frag1::Gen { r: &mut r, env: vec![], counter: 0, blocks: i % 2 == 1 };
+            let mut g = frag1::Gen { r: &mut r, env: vec![], counter: 0, blocks: i % 2 == 1, fns: i % 4 == 3, in_body: false };
             let seq = g.seq(2);
             let src = frag1::src_seq(&seq);
             let unit = match compile_program(&src, &b) {
@@ -645,7 +645,14 @@ fn main() {
             // block-free programs go to the model whose correctness is proved in C02Loc (Compile1), programs
             // with blocks to its extension Compile2
             let with_blocks = case.chains.as_deref().map(|c| c.contains("(blk")).unwrap_or(false);
-            let (creq, ereq) = if with_blocks { ("compile2", "eval2") } else { ("compile1", "eval1") };
+            let with_fns = case.chains.as_deref().map(|c| c.contains("(fnlit") || c.contains("(call")).unwrap_or(false);
+            let (creq, ereq) = if with_fns {
+                (format!("compile3 {}", case.fns), format!("eval3 60 {}", case.fns))
+            } else if with_blocks {
+                ("compile2".to_string(), "eval2".to_string())
+            } else {
+                ("compile1".to_string(), "eval1".to_string())
+            };
             let answer = match &case.chains {
                 Some(chs) => ck.model.ask(&format!("({creq} {chs})")),
                 None => "no-request (instruction stream has fewer constants / tuples than the term)".to_string(),
@@ -666,6 +673,12 @@ fn main() {
                 }
                 if with_blocks {
                     ev.hit("fragment1.with-block");
+                }
+                if with_fns {
+                    ev.hit("fragment1.with-functions");
+                }
+                if case.real.contains(" call") {
+                    ev.hit("fragment1.with-call");
                 }
                 if case.real.contains("jump-") && case.real.contains("reset") && case.real.split(' ').any(|w| w.starts_with("jump-") && w != "jump-6" && w != "jump-7" && w != "jump-13") {
                     ev.hit("fragment1.with-cleanup-block");
